@@ -128,6 +128,45 @@ def body(ctx: Ctx, p: dict) -> None:
     ctx.case(p, nontrivial=bool(big and cut), classes=classes)
 
 
+# ---------------------------------------------------------------------------------------------------------------
+# support regions of tens of thousands of pixels: on a smooth pair every region is as large as the arms allow, and the mean of
+# a constant cost over ANY region is that constant (no reference loop needed)
+# ---------------------------------------------------------------------------------------------------------------
+def enumerate_big(tier, shard, nshards):
+    sizes = [(190, 200, 100), (200, 185, 128)] if tier == "quick" else [(190, 200, 100), (200, 185, 128), (260, 262, 130), (186, 186, 92)]
+    for k, (H, W, dist) in enumerate(sizes):
+        if k % nshards == shard:
+            yield {"H": H, "W": W, "dist": dist, "cost": [2.0, 0.5][k % 2], "nd": 2}
+
+
+def big_body(ctx: Ctx, p: dict) -> None:
+    from pandora import aggregation
+
+    H, W, nd = p["H"], p["W"], p["nd"]
+    img = np.full((H, W), 100.0, dtype=np.float32)
+    img[::7, ::5] += 1.0  # smooth, not constant: every difference stays far below cbca_intensity
+    cv = np.full((H, W, nd), p["cost"], dtype=np.float32)
+    l = build.image_dataset(img, None, (0, nd - 1))
+    r = build.image_dataset(img, None, None)
+    cvds = build.cost_volume_dataset(cv, list(range(nd)), "min", 0, 1, np.zeros((H, W), dtype=np.uint16))
+    for d in range(1, nd):
+        cvds["cost_volume"].data[:, W - d:, d] = np.nan
+    nan_in = np.isnan(cvds["cost_volume"].data)
+    agg = aggregation.AbstractAggregation(aggregation_method="cbca", cbca_distance=p["dist"], cbca_intensity=50.0)
+    agg.cost_volume_aggregation(l, r, cvds)
+    got = cvds["cost_volume"].data
+    if (np.isnan(got) != nan_in).any():
+        ctx.violation("C11/finite-cost-became-nan", f"large regions: NaN pattern changed {p}")
+    bad = ~nan_in & (np.abs(got - p["cost"]) > 1e-4)
+    if bad.any():
+        r_, c_, k_ = np.argwhere(bad)[0]
+        ctx.violation("C11/not-region-average", f"large regions (up to {(2 * p['dist'] - 1) ** 2} pixels): cell {(int(r_), int(c_), int(k_))} "
+                                                f"got {got[r_, c_, k_]}, every cost of the region is {p['cost']} ({int(bad.sum())} cells) {p}")
+    ctx.judged += int((~nan_in).sum())
+    ctx.case(p, nontrivial=True, classes=["region>32767px"])
+
+
 CHECKS = [
+    Check("big-regions", big_body, enumerate=enumerate_big, exhaustive=True, budget={"quick": (2, 0), "thorough": (4, 0)}),
     Check("direct", body, strategy=cases, budget={"quick": (16, 60), "thorough": (16, 2000)}),
 ]
